@@ -59,6 +59,10 @@ CLAIMED = {
             "Lean 4 theorems (validate_accepts_iff, validate_rejects, format_last, partial_not_cooler, frame_other_collections, pipeline_dest_untouched by induction over the step list of create()) + exhaustive fault enumeration against the real producers",
             "Proof: the validator accepts a chunk iff ids are in range, upper-triangular in symmetric mode and keys distinct; for EVERY strict prefix of create()'s steps the target carries no format attribute (unless it is a root that already was a cooler), so after any fault it is neither recognised nor listed, and in append mode every collection outside the target's footprint is unchanged; faults inside temporary files of merge/coarsen/unordered pipelines leave the destination untouched. Every invalid-record kind at every chunk index and position, and an iterator exception before every chunk, are injected into ordered/unordered creation, merge and coarsen over several destination kinds.",
             "Trusted: Lean kernel; model tied by correspondence (partial file state compared with runUntil k); exceptions leaving create() only - process kill and torn HDF5 writes are outside."),
+    "C12": ("DESIGN.md §5 C12",
+            "Lean 4 theorems parametric in an uninterpreted carrier (dense_spec, sparse_spec, pixels_spec, bias_alias_sound, missing_column_error, divisive_default_iff, contracts) + bit-for-bit differential correspondence with Lean Float on every window and output form",
+            "Proof: for every window, weight vector and raw content each balanced value is the product of exactly the raw value, the row bin's weight and the column bin's weight (reciprocals when divisive; divisive by default exactly for KR/VC/VC_SQRT), the aliasing shortcut equals slicing the column range, a missing column is an error in all forms. The model instantiated at IEEE binary64 is compared bit for bit with Cooler.matrix(balance=...) in dense/sparse/pixel form and with cooler dump -b; a pure re-bracketing of the product is a free choice checked by contract.",
+            "Trusted: Lean kernel; Lean Float = IEEE binary64 (checked against numpy on random bit patterns every run); model fed with the raw result of the same query so that range-query bugs are C03's."),
 }
 
 NOT_YET = {}
